@@ -96,6 +96,9 @@ def check_sid(ref, prefs, Sid, typ, s, rec, table):
             continue
         has_any = True
         try:
+            for o in prefs:                      # the other configurations are asked about the same path first
+                if o != cname:
+                    Sid(path=p1, config=o)
             back = Sid(path=p1, config=cname)
             back_s = Sid(path=str(p1), config=cname)
         except Exception as e:  # noqa
